@@ -291,7 +291,7 @@ func sectionD(r *hlib.Run) {
 		}
 	}
 	rng := r.Rand.Fork()
-	maxLen, perCodec, nEnc, maxPoints := 900, 1, 1, 72
+	maxLen, perCodec, nEnc, maxPoints := 900, 1, 1, 48
 	if r.Thorough {
 		maxLen, perCodec, nEnc, maxPoints = 6000, 8, 10, 1 << 30
 	}
@@ -336,7 +336,7 @@ func sectionD(r *hlib.Run) {
 				j.kinds = append(j.kinds, kind)
 			}
 			add("oneshot", "")
-			// every single split point (quick tier: every point of the first 32 bytes, where the
+			// every single split point (quick tier: every point of the first 24 bytes, where the
 			// headers are, then evenly spaced points; the sanitizer build samples)
 			points := maxPoints
 			if fl == cdrv.AsanUbsan {
@@ -347,7 +347,7 @@ func sectionD(r *hlib.Run) {
 				stride = (n + points - 1) / points
 			}
 			for k := 1; k < n; k++ {
-				if (k < 32 && fl == cdrv.PlainGcc) || k%stride == 0 {
+				if (k < 24 && fl == cdrv.PlainGcc) || k%stride == 0 {
 					add("src1", fmt.Sprintf("src=%d,%s ", k, big))
 				}
 			}
@@ -361,6 +361,9 @@ func sectionD(r *hlib.Run) {
 				}
 			}
 			nMulti := 4
+			if !r.Thorough {
+				nMulti = 3
+			}
 			if fl == cdrv.AsanUbsan && !r.Thorough {
 				nMulti = 2
 			}
@@ -437,6 +440,9 @@ func sectionD(r *hlib.Run) {
 			outLen /= 8 // tokens
 		}
 		stride := 1 + outLen/48
+		if !r.Thorough {
+			stride = 1 + outLen/32
+		}
 		if j.fl == cdrv.AsanUbsan {
 			stride = 1 + outLen/12
 		}
